@@ -8,6 +8,7 @@
   The judge (`Spec.Check`, ops save/loadfrom) checks the real encoder/decoder and the real target cache against these.
 -/
 import OtterVerif.Spec.Core
+import OtterVerif.Conc.DrainSkeleton
 import OtterVerif.Conc.PersistSkeleton
 import OtterVerif.Gen.Skeleton
 import OtterVerif.Gen.Deadline
@@ -111,6 +112,8 @@ example : restoredDeadline 100 250 = 250 := by decide
 
 /-! ### The order of the calls in persistence.go is the one the theorems assume (regenerated on every run) -/
 theorem skeleton_LoadCacheFrom : Gen.Skeleton.LoadCacheFrom = Conc.PersistSkeleton.LoadCacheFrom := by decide
+/-- SaveCacheTo walks the entries through Hottest = evictionOrder: the whole walk happens under the eviction lock -/
+theorem skeleton_cache_evictionOrder : Gen.Skeleton.cache_evictionOrder = Conc.DrainSkeleton.cache_evictionOrder := by decide
 theorem skeleton_SaveCacheTo : Gen.Skeleton.SaveCacheTo = Conc.PersistSkeleton.SaveCacheTo := by decide
 
 end OtterVerif.Props.C19
